@@ -1,4 +1,4 @@
-use crate::{InputTrait, Parser};
+use crate::{InputTrait, Parser, ParserErrorTrait};
 
 pub struct PeekParser<P> {
     parser: P,
@@ -24,6 +24,12 @@ where
             Ok(value) => {
                 input.set_position(original_position);
                 Ok(value)
+            }
+            Err(err) if err.is_soft() => {
+                // a soft failure leaves the input where it started,
+                // also when the parser does not undo it itself
+                input.set_position(original_position);
+                Err(err)
             }
             Err(err) => Err(err),
         }
